@@ -118,20 +118,24 @@ class SharedStringIntern(Harness):
     classes = {}
     def __init__(self, tier):
         self.maxn = 2 if tier == 'quick' else 3
-        self.doc = 'two cell values, each plain text, rich text of one run (without or with a bold run font) or rich text of two runs, with symbolic texts of 0..%d characters, interned one after the other by the real SharedStringTable::set_cell: they get the same shared-string index only if kind, run structure and text are equal (md5 and the AHasher are injective free symbols over what is fed to them)' % self.maxn
+        self.doc = 'two cell values, each plain text, rich text of one run (without or with a bold run font) or rich text of two runs with a symbolic run boundary, with symbolic texts of 0..%d characters, interned one after the other by the real SharedStringTable::set_cell: they get the same shared-string index only if kind, run structure and text are equal (md5 and the AHasher are injective free symbols over what is fed to them)' % self.maxn
         self.bounds = {'values': 2, 'kinds': SKINDS, 'text_chars': [0, self.maxn], 'alphabet': 'a-z', 'hash_model': 'md5 / ahash as injective functions of their input (collisions of the real hashes are outside the claim)'}
     def setup(self, it):
         from engine import cryptomodel as cm
         cm.install(it); cm.install_digests(it)
     def value(self, it, ctx, tag):
         ki = ctx.sym_int(tag + 'kind', 0, len(SKINDS) - 1); kind = SKINDS[next(i for i in range(len(SKINDS)) if ctx.branch(ki == i))]
-        n = ctx.sym_int(tag + 'len', 0, self.maxn); n = next(k for k in range(self.maxn + 1) if ctx.branch(n == k))
+        hi = self.maxn + 1 if kind == 'rich2' else self.maxn          # two runs get one more character, so that the run boundary can sit in two places
+        n = ctx.sym_int(tag + 'len', 0, hi); n = next(k for k in range(hi + 1) if ctx.branch(n == k))
         cs = [ctx.sym_int('%st%d' % (tag, i), 97, 122) for i in range(n)]
+        cut = None
+        if kind == 'rich2':
+            cv = ctx.sym_int(tag + 'cut', 0, n); cut = next(k for k in range(n + 1) if ctx.branch(cv == k))
         cell = Box_(it.call('<structs::cell::Cell as std::default::Default>::default', []))
         if kind == 'text': it.call(CELL + 'set_value_string::<&str>', [Ref(cell), sref(SStr(cs))])
         else:
             rt = Box_(it.call('<structs::rich_text::RichText as std::default::Default>::default', []))
-            cut = (len(cs) + 1) // 2 if kind == 'rich2' else len(cs)
+            if cut is None: cut = len(cs)
             for k, part in enumerate([cs[:cut], cs[cut:]] if kind == 'rich2' else [cs]):
                 te = Box_(it.call('<structs::text_element::TextElement as std::default::Default>::default', []))
                 it.call('structs::text_element::TextElement::set_text::<&str>', [Ref(te), sref(SStr(part))])
@@ -140,7 +144,7 @@ class SharedStringIntern(Harness):
                     it.call('structs::font::Font::set_bold', [f, True])
                 it.call('structs::rich_text::RichText::add_rich_text_elements', [Ref(rt), te.v])
             it.call(CELL + 'set_rich_text', [Ref(cell), rt.v])
-        return cell, kind, cs
+        return cell, (kind, cut), cs
     def run(self, it, ctx, res):
         from engine import cryptomodel as cm
         it.world = cm.World()
@@ -154,20 +158,103 @@ class SharedStringIntern(Harness):
         same = (ka == kb and len(ta) == len(tb)) and (chars_eq(ta, tb) if ta else True)
         merged = ids[0] == ids[1]
         if is_sym(merged): merged = ctx.branch(merged)
-        info = {'kinds': [ka, kb], 'lens': [len(ta), len(tb)], 'ids': [str(i) for i in ids], 'items': count}
+        info = {'kinds': [list(ka), list(kb)], 'lens': [len(ta), len(tb)], 'ids': [str(i) for i in ids], 'items': count}
         if merged: self.oblige(ctx, res, 'same-index=>equal-values', same, info=info)
         else: self.oblige(ctx, res, 'different-index=>different-values', (not same) if isinstance(same, bool) else z3.Not(same), info=info)
     def case_of(self, v):
         m = v['model']
-        f = lambda t: [SKINDS[m[t + 'kind']], ''.join(chr(m['%st%d' % (t, i)]) for i in range(m.get(t + 'len', 0)))]
+        f = lambda t: [SKINDS[m[t + 'kind']], ''.join(chr(m['%st%d' % (t, i)]) for i in range(m.get(t + 'len', 0))), m.get(t + 'cut', -1)]
         c = {'a': f('a_'), 'b': f('b_'), 'oblig': v['oblig']}; c['show'] = dict(c); return c
     def confirm(self, case, profile):
         a, b = case['a'], case['b']
-        r = native.run_cases([['sst_pair', a[0], a[1], b[0], b[1]]], profile, timeout_each=60)[0]
+        r = native.run_cases([['sst_pair', a[0], a[1], b[0], b[1], a[2], b[2]]], profile, timeout_each=60)[0]
+        if r[0] != 'ok': return True, 'cells %r / %r -> %r' % (a, b, r)
+        before, after = native.unhx(r[1][0]), native.unhx(r[1][1])
+        return before != after, 'cells A1/A2 before save %r, after reload %r' % (before, after)
+
+class SharedStringsPart(Harness):
+    """the sharedStrings part itself: table -> XML -> table (the cell kernel hands the table object over and never sees this step)"""
+    name = 'shared_strings_part.write_read'; property_id = 'C01'
+    entry = ['structs::shared_string_table::SharedStringTable::write_to', 'structs::shared_string_table::SharedStringTable::set_attributes', 'structs::shared_string_item::SharedStringItem::set_attributes', 'structs::text::Text::set_attributes', 'structs::text::Text::write_to', 'structs::text_element::TextElement::set_attributes']
+    classes = {}
+    def __init__(self, tier):
+        self.maxn = 2 if tier == 'quick' else 3
+        self.doc = 'a shared-string table filled by the real set_cell with two cell values (plain text, or rich text of one run without / with a bold font, or two runs), texts of 0..%d symbolic characters out of a, blank, line feed, carriage return, &, <, written by the real SharedStringTable::write_to into an XML event stream and read back by the real SharedStringTable::set_attributes (the reader of the part switches text trimming off, as reader::xlsx::shared_strings does): every item has the same kind, the same runs and, character for character, the same text' % self.maxn
+        self.bounds = {'items': 2, 'kinds': SKINDS, 'text_chars': [0, self.maxn], 'alphabet': ['a', ' ', '\\n', '\\r', '&', '<'], 'trim_text': 'as the real part reader sets it'}
+    def setup(self, it):
+        from engine import cryptomodel as cm
+        xmlmodel.install(it); xmlmodel.install_events(it); cm.install(it); cm.install_digests(it)
+    def value(self, it, ctx, tag):
+        ki = ctx.sym_int(tag + 'kind', 0, len(SKINDS) - 1); kind = SKINDS[next(i for i in range(len(SKINDS)) if ctx.branch(ki == i))]
+        n = ctx.sym_int(tag + 'len', 0, self.maxn); n = next(k for k in range(self.maxn + 1) if ctx.branch(n == k))
+        cs = [ctx.sym_int('%st%d' % (tag, i), 10, 97) for i in range(n)]
+        for c in cs: ctx.define(z3.Or(*[c == a for a in (97, 32, 10, 13, 38, 60)]))
+        cell = Box_(it.call('<structs::cell::Cell as std::default::Default>::default', []))
+        parts = [cs]
+        if kind == 'text': it.call(CELL + 'set_value_string::<&str>', [Ref(cell), sref(SStr(cs))])
+        else:
+            rt = Box_(it.call('<structs::rich_text::RichText as std::default::Default>::default', []))
+            parts = [cs[:1], cs[1:]] if kind == 'rich2' else [cs]
+            for part in parts:
+                te = Box_(it.call('<structs::text_element::TextElement as std::default::Default>::default', []))
+                it.call('structs::text_element::TextElement::set_text::<&str>', [Ref(te), sref(SStr(part))])
+                if kind == 'rich_bold': it.call('structs::font::Font::set_bold', [it.call('structs::text_element::TextElement::get_run_properties_mut', [Ref(te)]), True])
+                it.call('structs::rich_text::RichText::add_rich_text_elements', [Ref(rt), te.v])
+            it.call(CELL + 'set_rich_text', [Ref(cell), rt.v])
+        return cell, kind, parts
+    def items(self, it, table):
+        out = []
+        for item in deref_all(it.call('structs::shared_string_table::SharedStringTable::get_shared_string_item', [Ref(table)])):
+            ir = Ref(Box_(item))
+            t = it.call('structs::shared_string_item::SharedStringItem::get_text', [ir]); r = it.call('structs::shared_string_item::SharedStringItem::get_rich_text', [ir])
+            if r.variant == 1:
+                runs = []
+                for el in deref_all(it.call('structs::rich_text::RichText::get_rich_text_elements', [r.fields[0]])):
+                    er = Ref(Box_(el))
+                    f = it.call('structs::text_element::TextElement::get_run_properties', [er])
+                    bold = deref_all(it.call('structs::font::Font::get_bold', [f.fields[0]])) if f.variant == 1 else False
+                    runs.append((list(deref_all(it.call('structs::text_element::TextElement::get_text', [er])).chars), bold))
+                out.append(('rich', runs))
+            elif t.variant == 1:
+                v = it.call('structs::text::Text::get_value', [t.fields[0]])
+                out.append(('text', [(list(deref_all(v).chars), False)]))
+            else: out.append(('empty', []))
+        return out
+    def run(self, it, ctx, res):
+        from engine import cryptomodel as cm
+        from harness.rt import conj
+        it.world = cm.World()
+        try:
+            ca, ka, pa = self.value(it, ctx, 'a_'); cb, kb, pb = self.value(it, ctx, 'b_')
+            table = Box_(it.call('<structs::shared_string_table::SharedStringTable as std::default::Default>::default', []))
+            for c in (ca, cb): it.call('structs::shared_string_table::SharedStringTable::set_cell', [Ref(table), it.call(CELL + 'get_cell_value', [Ref(c)])])
+            before = self.items(it, table)
+            rec = xmlmodel.Recorder()
+            it.call('structs::shared_string_table::SharedStringTable::write_to', [Ref(table), Ref(Box_(rec))])
+            evs = rec.events
+            back = Box_(it.call('<structs::shared_string_table::SharedStringTable as std::default::Default>::default', []))
+            rd = xmlmodel.XmlReader(evs[1:], trim=False)          # reader::xlsx::shared_strings::read: trim_text(false)
+            it.call('structs::shared_string_table::SharedStringTable::set_attributes::<&[u8]>', [Ref(back), Ref(Box_(rd)), Ref(Box_(evs[0].fields[0]))])
+            after = self.items(it, back)
+        except Panic as e:
+            self.fail(ctx, res, 'no-panic', str(e), info={'kinds': [ka, kb]}); return
+        info = {'kinds': [ka, kb], 'items': len(before)}
+        self.oblige(ctx, res, 'same-number-of-items', len(after) == len(before), info=dict(info, after=len(after)))
+        if len(after) != len(before): return
+        for i, (b, a) in enumerate(zip(before, after)):
+            okstruct = a[0] == b[0] and len(a[1]) == len(b[1]) and all(len(x[0]) == len(y[0]) and x[1] == y[1] for x, y in zip(a[1], b[1]))
+            self.oblige(ctx, res, 'item-keeps-kind-runs-and-text', conj([chars_eq(x[0], y[0]) if x[0] else True for x, y in zip(a[1], b[1])]) if okstruct else False, info=dict(info, item=i, before=b[0], after=a[0]))
+    def case_of(self, v):
+        m = v['model']
+        f = lambda t: [SKINDS[m[t + 'kind']], ''.join(chr(m.get('%st%d' % (t, i), 97)) for i in range(m.get(t + 'len', 0))), 1]
+        c = {'a': f('a_'), 'b': f('b_'), 'oblig': v['oblig']}; c['show'] = dict(c); return c
+    def confirm(self, case, profile):
+        a, b = case['a'], case['b']
+        r = native.run_cases([['sst_pair', a[0], a[1], b[0], b[1], a[2], b[2]]], profile, timeout_each=60)[0]
         if r[0] != 'ok': return True, 'cells %r / %r -> %r' % (a, b, r)
         before, after = native.unhx(r[1][0]), native.unhx(r[1][1])
         return before != after, 'cells A1/A2 before save %r, after reload %r' % (before, after)
 
 def harnesses(tier):
-    return [CellTrip(tier), SharedStringIntern(tier)]
+    return [CellTrip(tier), SharedStringIntern(tier), SharedStringsPart(tier)]
 OPTIONS = {'want_smir': True}
